@@ -812,17 +812,34 @@ func ruleC19NoOverride(r *Run) {
 					if !ok {
 						return false
 					}
+					// "no Content-Type present": len(h["Content-Type"]) == 0, len(h.Values("Content-Type")) == 0, h.Get("Content-Type") == ""
+					if gc, isCall := b.X.(*ssa.Call); isCall && calleeName(gc) == "(net/http.Header).Get" {
+						k, okc := constString(gc.Call.Args[1])
+						sv, oks := constString(b.Y)
+						return okc && oks && sv == "" && strings.EqualFold(k, "Content-Type") && ((b.Op == token.EQL && truth) || (b.Op == token.NEQ && !truth))
+					}
 					call, ok := b.X.(*ssa.Call)
 					if !ok || !isBuiltin(call, "len") {
 						return false
 					}
-					lk, ok := call.Call.Args[0].(*ssa.Lookup)
-					if !ok {
+					k, okc := "", false
+					switch lk := call.Call.Args[0].(type) {
+					case *ssa.Lookup:
+						k, okc = constString(lk.Index)
+					case *ssa.Call:
+						if calleeName(lk) == "(net/http.Header).Values" {
+							k, okc = constString(lk.Call.Args[1])
+						}
+					}
+					c, okn := constInt(b.Y)
+					if !okc || !okn || !strings.EqualFold(k, "Content-Type") {
 						return false
 					}
-					k, okc := constString(lk.Index)
-					c, okn := constInt(b.Y)
-					return okc && okn && strings.EqualFold(k, "Content-Type") && c == 0 && ((b.Op == token.EQL && truth) || (b.Op == token.NEQ && !truth) || (b.Op == token.GTR && !truth))
+					op := b.Op
+					if !truth {
+						op = negOp(op)
+					}
+					return (op == token.EQL && c == 0) || (op == token.LEQ && c == 0) || (op == token.LSS && c == 1)
 				})
 			}
 			r.Check(rule, fmt.Sprintf("%s:sets Content-Type#%d", FuncName(f), n), w.InstrPos(in), okW && guarded, map[bool]string{true: "the content type is written only when none is present", false: "a renderer sets Content-Type unconditionally (or outside writeContentType): a type chosen by the caller is overridden"}[okW && guarded])
